@@ -82,6 +82,12 @@ structure DirectSample (α : Type) where
   c : Option (Dual α)
   logp : Dual α
 
+/-- `fb` for one sample: `func(b)`, or `func(b) - cv(b) + cv_mean` with a control variate. -/
+def directFb (cvMean : Option (Dual α)) (s : DirectSample α) : Dual α :=
+  match s.c, cvMean with
+  | some c, some m => s.f - c + m
+  | _, _ => s.f
+
 /-- `DirectEstimator.__call__`, `is_log = False`.
 ```
 fb = func(b); if cv: fb = fb - cv(b) + cv_mean
@@ -89,10 +95,7 @@ deriv = (fb.detach() * log_pb).mean(0); fb = fb.mean(0)
 v = fb + deriv - deriv.detach()
 ``` -/
 def directEstimate (ss : List (DirectSample α)) (cvMean : Option (Dual α)) : Dual α :=
-  let fb : List (Dual α) := ss.map fun s =>
-    match s.c, cvMean with
-    | some c, some m => s.f - c + m
-    | _, _ => s.f
+  let fb : List (Dual α) := ss.map (directFb cvMean)
   let deriv := Dual.mean (List.zipWith (fun f l => f.detach * l) fb (ss.map (·.logp)))
   let fbm := Dual.mean fb
   fbm + deriv - deriv.detach
